@@ -55,7 +55,7 @@ theorem mgrInv_drop (m : Mgr) (h : MgrInv m) (a now : Rat) : MgrInv (m.drop a no
 /-- Shifting in-domain bounds by a target inside them keeps them in-domain. -/
 theorem shifted_inDomain (sb : SystemBounds) (hd : C03_InDomain sb) (t : Rat)
     (ht : C03_Envelope sb t) : C03_InDomain (shifted sb (some t)) := by
-  unfold C03_InDomain shifted C03_Envelope at *
+  unfold C03_InDomain shifted C03_Envelope Extracted.Proposal.shiftedLower Extracted.Proposal.shiftedUpper at *
   refine ⟨?_, hd.2⟩
   intro b hb
   cases hi : sb.incl with
